@@ -231,6 +231,37 @@ def eval_term(t, leaf):
         return int(not v) if v in (0, 1) else (~v) & ((1 << (BITS.get(t[2], 64) if len(t) > 2 else 64)) - 1)
     if h == "call" and t[1].endswith(("::from", "::into")) and len(t[2]) == 1:
         return eval_term(t[2][0], leaf)
+    if h == "call" and t[1].endswith("::contains") and len(t[2]) == 2 and "Range" in t[1]:
+        # (a..b).contains(&x) / (a..=b).contains(&x)
+        rg, x = t[2]
+        while isinstance(rg, tuple) and rg and rg[0] in ("ref", "deref"):
+            rg = rg[1]
+        while isinstance(x, tuple) and x and x[0] in ("ref", "deref"):
+            x = x[1]
+        lo = hi = None
+        if isinstance(rg, tuple) and rg and rg[0] == "constval" and "promoted[" in str(rg[1]) and FACTS is not None:
+            # a constant range lives in a promoted body: `_1 = RangeInclusive::new(a, b); _0 = &_1`
+            import re as _re
+            m_ = _re.search(r"^(.*)::promoted\[(\d+)\]$", str(rg[1]))
+            if m_:
+                base_ = _re.sub(r"<'[_a-z]+, ", "<", m_.group(1)).replace("<'_>", "").replace("<'a>", "")
+                for pb in FACTS.bodies:
+                    if pb.promoted == int(m_.group(2)) and _re.sub(r"<'[_a-z]+, ", "<", pb.name.split("::promoted")[0]).replace("<'a>", "") == base_:
+                        from engine.flow import Terms as _T
+                        tp_ = _T(pb)
+                        for blk_ in pb.blocks:
+                            if blk_.term.k == "call" and (flow_declared(blk_.term) or "").endswith(("RangeInclusive::new",)):
+                                rg = ("call", "std::ops::RangeInclusive::new", tuple(tp_.of_operand(a_) for a_ in blk_.term.args), 0)
+                            for st_ in blk_.stmts:
+                                if st_.k == "assign" and st_.rv.k == "aggregate" and st_.rv.agg == "adt" and (st_.rv.adt_name or "").endswith("ops::Range"):
+                                    rg = ("agg", "std::ops::Range::Range", tuple(tp_.of_operand(o_) for o_ in st_.rv.ops))
+        if isinstance(rg, tuple) and rg and rg[0] == "call" and str(rg[1]).endswith("RangeInclusive::new") and len(rg[2]) == 2:
+            lo, hi = eval_term(rg[2][0], leaf), eval_term(rg[2][1], leaf)
+        elif isinstance(rg, tuple) and rg and rg[0] == "agg" and str(rg[1]).endswith("Range::Range") and len(rg[2]) == 2:
+            lo, hi = eval_term(rg[2][0], leaf), eval_term(rg[2][1], leaf) - 1
+        if lo is not None:
+            return int(lo <= eval_term(x, leaf) <= hi)
+        raise NotEvaluable(t)
     if h == "call" and len(t[2]) == 2 and t[1].split("::")[-1] in ("max", "min", "saturating_sub", "abs_diff") and \
             (t[1].startswith(("std::cmp::", "core::num::", "core::cmp::")) or "::Ord::" in t[1]):
         try:
